@@ -7,6 +7,8 @@
 //! Builder state carried over between calls: every case compiles twice on the same DictBuilder, and after every injected sink
 //! failure the same builder compiles again into a good sink.
 use crate::common::*;
+#[path = "c06_cli.rs"]
+mod cli;
 use serde_json::{json, Value};
 use std::io::Write;
 use sudachi::analysis::stateful_tokenizer::StatefulTokenizer;
@@ -1576,7 +1578,7 @@ fn run_raw(sink: &mut Sink, env: &Env, matrix: Option<Vec<u8>>, lexicon: Vec<u8>
 pub fn run(args: &Args) {
     let mut sink = Sink::new("C06", &args.out, &["Model.GuardLang", "Model.Params", "Model.Build", "Model.BuildHistory"], args.seed, &args.tier);
     sink.shard_size = 60;
-    sink.rule("system dictionaries (matrix text nl x nr in 0..6, square and non-square, blank lines / tabs / missing cells) and user dictionaries (against a 4x3 system dictionary) with 1..14 rows incl. compounds with split / word-structure references; structured stream = valid input with exactly one damaged aspect (row arity, left/right/cost from the boundary grid, over-long string / bad escape, dangling or malformed references, array length 127/128, mode, synonyms, empty surface; matrix: empty text, header arity / sign / non-numeric, coordinates at and beyond the dimension, negative, wrong arity); malformed stream = byte-level damage (truncation, quotes, invalid UTF-8, swaps); every case compiles twice on one builder (second outcome and bytes must equal the first) after resolving twice; fault enumeration = sink accepting exactly k bytes for every k (quick: every k of small dictionaries), each followed by a retry on the same builder into a good sink (Err or the bytes of a fresh build), plus longer histories [fail, fail, one byte per call, good]; non-trivial = compilation failed or more than one row; distinct by generated Coq term");
+    sink.rule("system dictionaries (matrix text nl x nr in 0..6, square and non-square, blank lines / tabs / missing cells) and user dictionaries (against a 4x3 system dictionary) with 1..14 rows incl. compounds with split / word-structure references; structured stream = valid input with exactly one damaged aspect (row arity, left/right/cost from the boundary grid, over-long string / bad escape, dangling or malformed references, array length 127/128, mode, synonyms, empty surface; matrix: empty text, header arity / sign / non-numeric, coordinates at and beyond the dimension, negative, wrong arity); malformed stream = byte-level damage (truncation, quotes, invalid UTF-8, swaps); every case compiles twice on one builder (second outcome and bytes must equal the first) after resolving twice; other routes = `sudachi build` / `ubuild` and sudachipy.build_system_dic / build_user_dic from the working tree on 1..2500-row inputs (normal: output file = in-process bytes; failing output file at 5 offsets: must report an error) and a sixth of the structured system cases through the command-line tool; fault enumeration = sink accepting exactly k bytes for every k (quick: every k of small dictionaries), each followed by a retry on the same builder into a good sink (Err or the bytes of a fresh build), plus longer histories [fail, fail, one byte per call, good]; non-trivial = compilation failed or more than one row; distinct by generated Coq term");
     let dir = args.work.join("c06_res");
     std::fs::create_dir_all(&dir).unwrap();
     std::fs::copy(format!("{}/sudachi/tests/resources/char.def", repo()), dir.join("char.def")).unwrap();
@@ -1601,6 +1603,11 @@ pub fn run(args: &Args) {
         };
         println!("replaying C06 case (shape {})", c["shape"]);
         *env.hdr.borrow_mut() = Hdr { descr: c["descr"].as_str().map(|x| x.to_string()), time: c["time"].as_u64() };
+        if c["kind"] == "c06-route" {
+            cli::replay_route(&mut sink, &env, args, c);
+            sink.finish();
+            return;
+        }
         if c["kind"] == "c06-history" {
             replay_history(&mut sink, &env, c);
             sink.finish();
@@ -1695,6 +1702,7 @@ pub fn run(args: &Args) {
     run_raw(&mut sink, &env, Some(sys_matrix_text().into_bytes()), "\u{0}ああ,0,0,100,ああ,名詞,普通名詞,一般,*,*,*,ヨミ,ああ,*,A,*,*,*\n".as_bytes().to_vec(), "directed_nul_in_surface");
     run_raw(&mut sink, &env, Some(sys_matrix_text().into_bytes()), Vec::new(), "directed_empty_lexicon");
     // ---- structured stream
+    let mut routed: Vec<(Option<String>, String, String)> = vec![];
     let n = args.n(700, 12000);
     for it in 0..n {
         let user = rng.chance(1, 4);
@@ -1772,6 +1780,10 @@ pub fn run(args: &Args) {
         }
         emit(&mut sink, &env, &mut rng, &case, &shape);
         *env.hdr.borrow_mut() = Hdr::default();
+        if it % 6 == 2 && !user && routed.len() < 300 {
+            // the same abstract case goes through the command-line tool later
+            routed.push((case.matrix_text(&mut rng), case.lexicon_text(), shape.to_string()));
+        }
     }
     // ---- call histories on one builder
     {
@@ -1817,6 +1829,8 @@ pub fn run(args: &Args) {
     for _ in 0..args.n(200, 4000) {
         rust_only_history(&mut sink, &env, &mut rng);
     }
+    // ---- the other public routes to the compiler: command-line tool and Python functions
+    cli::run_routes(&mut sink, &env, &mut rng, args, &routed);
     // ---- fault enumeration
     let ninputs = args.n(6, 40);
     for i in 0..ninputs {
